@@ -271,14 +271,45 @@ async def transfer(net, hyg, plan):
                         await asyncio.sleep(0.0003 * (j + 1))
                 await cj.quit()
                 return bytes(got)
-            outs = await asyncio.gather(*[fetch(j) for j in range(plan["concurrent_readers"])])
+            extra = b""
+
+            async def append_meanwhile():
+                # ... while yet another session appends to the file (the readers deliver the old or the new content, whole)
+                ca = aioftp.Client(path_io_factory=aioftp.MemoryPathIO)
+                await ca.connect("127.0.0.1", 2121)
+                await ca.login()
+                await asyncio.sleep(0.0007)
+                async with ca.append_stream("/d/f.bin") as sa:
+                    await sa.write(b"+tail")
+                await ca.quit()
+            if plan.get("append_meanwhile"):
+                extra = b"+tail"
+                res = await asyncio.gather(*[fetch(j) for j in range(plan["concurrent_readers"])], append_meanwhile(), return_exceptions=True)
+                outs, app = res[:-1], res[-1]
+                if isinstance(app, Exception):
+                    viol.append({"key": "append-while-others-download-fails",
+                                 "msg": f"{where}: APPE by another session while {plan['concurrent_readers']} sessions download the file: {app!r}"})
+                    extra = b""
+                for o in outs:
+                    if isinstance(o, Exception):
+                        raise o
+                if w.tree().get("/d/f.bin") != want + extra:
+                    viol.append({"key": "stored-bytes-differ:append-meanwhile",
+                                 "msg": f"{where}: after the concurrent APPE the back end holds {describe(w.tree().get('/d/f.bin'))}, "
+                                        f"expected {describe(want + extra)}"})
+            else:
+                outs = await asyncio.gather(*[fetch(j) for j in range(plan["concurrent_readers"])])
             mon["concurrent_readers"] = mon.get("concurrent_readers", 0) + 1
             for j, got in enumerate(outs):
+                if extra and got in (want, want + extra):
+                    continue
                 if got != want:
                     viol.append({"key": "downloaded-bytes-differ:concurrent-readers",
                                  "msg": f"{where}: {plan['concurrent_readers']} sessions downloading the file at the same time: reader {j} "
                                         f"got {describe(got)} expected {describe(want)} {first_diff(got, want)}"})
                     break
+        if plan.get("concurrent_readers") and plan.get("append_meanwhile") and w.tree().get("/d/f.bin") == want + b"+tail":
+            want = want + b"+tail"
         if c0 is not None:
             mon["observer_session"] = mon.get("observer_session", 0) + 1
             got0 = bytearray()
@@ -376,6 +407,7 @@ def gen_cases(tier, seed):
             plan["short_reads"] = rng.choice([1, bs // 2, bs - 1, max(1, bs // 8)])
         if rng.random() < 0.25 and bs >= 7:
             plan["concurrent_readers"] = rng.choice([2, 2, 3])
+            plan["append_meanwhile"] = rng.random() < 0.4
         if rng.random() < 0.3 and size + olds < 40000:
             plan["observer"] = True
         if rng.random() < 0.3 and size + olds < 40000:
